@@ -224,7 +224,17 @@ func (s *Sim) Count(k string, n int64) {
 // Yield is installed as simhook handler: a parked goroutine resumes after a
 // keyed delay, so the simulator decides its order relative to all other
 // parked goroutines. Only sites enabled in this run's buggify mask park.
+// SlowSites are yield points a scenario can single out (config "slow_site",
+// 1-based): a goroutine passing the chosen one is descheduled for 0.2-3 ms
+// every time - a slow spot, where the ordinary yields model short ones.
+var SlowSites = []string{"client.ensureRegistered.beforeRegisterDispute"}
+
 func (s *Sim) Yield(site string) {
+	if k := int(s.Sc.Cfg("slow_site", 0)); k > 0 && k <= len(SlowSites) && site == SlowSites[k-1] && heldNow() == 0 {
+		s.Count("probe.yield_slow."+site, 1)
+		s.Sleep("yieldslow:"+site, 200*time.Microsecond, 3*time.Millisecond)
+		return
+	}
 	if !s.yieldAll && !s.yieldOn[site] {
 		// sites inserted automatically into a scratch copy (cmd/yieldinject) are
 		// not known in advance: their mask bit is derived on first use
